@@ -566,7 +566,9 @@ func marginBoxContentLayout(context *layoutContext, mBox *bo.MarginBox) Box {
 		&positionedBoxes, &positionedBoxes, new([]pr.Float), false, -1)
 
 	if tmp.resumeAt != nil {
-		panic(fmt.Sprintf("resumeAt should be nil, got %v", tmp.resumeAt))
+		// a forced break inside a margin box (e.g. a running element with break-before: page):
+		// margin boxes are not fragmented, what follows the break is dropped
+		logger.WarningLogger.Printf("the content of margin box %s is cut at a page break\n", mBox.AtKeyword)
 	}
 
 	for _, absBox := range positionedBoxes {
